@@ -25,9 +25,13 @@ def check(run):
     # state half: (a) live vs reopened after every step, (b) the (j+1)-th storage write of an operation is made to
     # fail (injected write error): the failed attempt must leave live and reopened answers equal to what the first
     # j writes persisted, and the operation is then run again
-    plans = [dict(num=45, ops=20, window=1, driver_args=["-reopen"]), dict(num=45, ops=20, window=0, driver_args=["-faults", "30"])] if quick else \
-            [dict(num=700, ops=22, window=1, driver_args=["-reopen"]), dict(num=400, ops=22, window=0, driver_args=["-reopen"], maxb=9),
+    plans = [dict(num=45, ops=20, window=1, driver_args=["-reopen", "-direct", "50"]), dict(num=45, ops=20, window=0, driver_args=["-faults", "30"])] if quick else \
+            [dict(num=700, ops=22, window=1, driver_args=["-reopen", "-direct", "50"]), dict(num=400, ops=22, window=0, driver_args=["-reopen"], maxb=9),
              dict(num=700, ops=22, window=1, driver_args=["-faults", "30"]), dict(num=300, ops=26, window=0, maxb=9, driver_args=["-faults", "40"])]
+    # transactions with a token part AND a key part: one part current, the other stale (the refused half must leave no
+    # trace in any cache either), half of the submissions through the public DoTx alone
+    mixed = '{"p1", "p2", "p3", "p7", "x1", "x2", "t1", "t3", "t4"}'
+    plans.append(dict(num=30 if quick else 400, ops=16, window=0, txs=mixed, driver_args=["-reopen", "-direct", "60"]))
     groups = xc.gen(run, plans)
     if not run.violations:
         xc.replay_validate(run, groups)
